@@ -119,7 +119,7 @@ CHAIN_PLAN = {
         (1, (0, 1, 2, 3), chains.STYLES, chains.SCOPES, 2),
         (2, (0, 1, 2, 3), chains.STYLES, chains.SCOPES, 2),
         (3, (0, 1, 2, 3), chains.STYLES, chains.SCOPES, None),
-        (4, (0, 3), ('tape',), chains.SCOPES, None),
+        (4, (0, 3), ('tape',), ('global',), None),
     ],
     'thorough': [
         (1, (0, 1, 2, 3), chains.STYLES, chains.SCOPES, 3),
@@ -177,6 +177,7 @@ def chain_family(tier):
 # ---------------------------------------------------------------- several functions in one script
 
 PLACEMENTS = ('global+global', 'global+func', 'func+global', 'func+func', 'func+func+global-between')
+QUICK_PLACEMENTS = ('global+func', 'func+func', 'func+func+global-between')
 
 
 def pair_bodies():
@@ -229,9 +230,9 @@ def fam_pairs(arg):
     nb = len(pair_bodies())
     for a in rows:
         for b in range(nb):
-            for placement in PLACEMENTS:
+            for placement in (PLACEMENTS if tier == 'thorough' else QUICK_PLACEMENTS):
                 acc.cases += 1
-                dyn = 1 if (tier == 'thorough' or (a + b) % 7 == 0) else None
+                dyn = 1 if (tier == 'thorough' or (a + b) % 13 == 0) else None
                 check_pair({'a': a, 'b': b, 'placement': placement, 'dyn': dyn}, acc)
         acc.sample({'a': pair_bodies()[a], 'b': pair_bodies()[(a * 3 + 1) % nb], 'placement': 'func+func'})
     return acc.result()
@@ -243,7 +244,8 @@ def families(tier):
     return [
         chain_family(tier),
         Family('pairs', fam_pairs, [(tier, r) for r in split(list(range(nb)), 48)],
-               f'every ordered pair of {nb} depth <= 2 chain bodies x placements {list(PLACEMENTS)}', expected=nb * nb * len(PLACEMENTS)),
+               f'every ordered pair of {nb} depth <= 2 chain bodies x placements {list(PLACEMENTS if tier == "thorough" else QUICK_PLACEMENTS)}',
+               expected=nb * nb * len(PLACEMENTS if tier == 'thorough' else QUICK_PLACEMENTS)),
     ]
 
 
